@@ -282,3 +282,83 @@ Corollary ledger_pass_is_model_pass :
     | None => None
     end.
 Proof. exact mpass_erases. Qed.
+
+(** 10. Receiver side.  For ANY sequence of DATA frames (wire payload lengths,
+    padding included, with or without END_STREAM) and any threshold, what sozu
+    queues as WINDOW_UPDATE is exactly what it consumed: on the connection,
+    credited + still pending = consumed; on the stream, credited = consumed by
+    the frames that did not end the stream.  (A receiver that credited less,
+    e.g. without the padding, starves the sender for good: mutation m3.) *)
+Theorem credited_is_consumed :
+  forall frames acc thr acc' cs ss,
+    credit_run acc thr frames = (acc', cs, ss) ->
+    sumz cs + acc' = acc + sumz (map fst frames) /\
+    sumz ss = sumz (map fst (filter (fun f => negb (snd f)) frames)).
+Proof. exact credit_conservation. Qed.
+
+Example credited_is_consumed_nonvacuous :
+  credit_run 0 500 [(266, false); (266, false); (266, false); (266, true)] = (0, [532; 532], [266; 266; 266]).
+Proof. vm_compute. reflexivity. Qed.
+
+(** 11. MAX_CONCURRENT_STREAMS toward a backend, under any list of attach /
+    SETTINGS / write-pass / end events: a write pass never raises the number
+    of streams open on the wire above the limit in force (when the limit was
+    lowered below the open count it opens none), keeps every attached stream
+    (open or waiting, in id order), and leaves a stream waiting only when the
+    limit is reached. *)
+Theorem concurrent_streams_bound :
+  forall w e,
+    let w' := wire_step w e in
+    Z.of_nat (length (w_opened w')) <= Z.max (Z.of_nat (length (w_opened w))) (w_limit w) /\
+    (e = WPass -> w_opened w' ++ w_waiting w' = w_opened w ++ w_waiting w /\
+                  (w_waiting w' <> [] -> w_limit w <= Z.of_nat (length (w_opened w')))).
+Proof. exact wire_step_bound. Qed.
+
+Example concurrent_streams_bound_nonvacuous :
+  fold_left wire_step [WAttach 1; WAttach 3; WAttach 5; WSettingsMCS 1; WPass; WEnd 1; WPass; WSettingsMCS 0; WEnd 3; WPass]
+            (mkwire 100 [] []) = mkwire 0 [] [5].
+Proof. vm_compute. reflexivity. Qed.
+
+(** 12. The ready loop ([Mux::ready]).  With the test in force since fix
+    d86ed70, when every hung-up connection in the loop is a backend kept for
+    its undelivered bytes, "the loop continues" implies that some connection
+    has READABLE or WRITABLE work, i.e. an I/O handler runs in the iteration:
+    the loop cannot spin on bits that no handler consumes.  Before the fix it
+    could: [ready_loop_spin_before_fix] is the state of the `truncated`
+    finding (response waiting for the client's WINDOW_UPDATE, backend hung up):
+    no I/O possible, yet the loop continued until MAX_LOOP_ITERATIONS closed
+    the session. *)
+Theorem ready_loop_has_io :
+  forall front backends,
+    (forall c, In c (front :: backends) -> cr_hup c = true -> cr_dead_kept c = true) ->
+    loop_continues true front backends = true ->
+    exists c, In c (front :: backends) /\ (cr_r c = true \/ cr_w c = true).
+Proof. exact loop_continues_has_io. Qed.
+
+Example ready_loop_spin_before_fix :
+  let front := mkcr false false false false in          (* window-blocked: nothing to write, nothing readable yet *)
+  let back := mkcr false false true true in             (* close-delimited backend hung up, its buffer still full *)
+  loop_continues false front [back] = true /\ loop_continues true front [back] = false.
+Proof. vm_compute. split; reflexivity. Qed.
+
+(** 13. Reading DATA into per-stream buffers.  If the peer was never granted
+    more than the free space of the target stream's buffer, a read attempt
+    never parks the connection, so a WINDOW_UPDATE queued behind DATA is always
+    reached.  sozu grants 65535 per stream up front and returns stream credit
+    when a frame is read, not when its bytes leave the 16 KiB buffer, so the
+    premise does not hold: [wedge_reachable] is the final state of the OPEN
+    finding `proxy-wedged` (both connections parked on a DATA frame for a full
+    buffer, each one's send window at 0, each peer's WINDOW_UPDATE unread
+    behind the parked frame): no read step is possible on either side. *)
+Theorem reading_never_parks_under_buffer_credit :
+  forall c f r,
+    rc_incoming c = f :: r ->
+    (forall s len, f = FData s len -> len <= nth s (rc_free c) 0) ->
+    read_one c <> None.
+Proof. exact read_one_never_parks. Qed.
+
+Example wedge_reachable :
+  let front := mkrc [FData 0 16377; FWindowUpdate 65535] [16] 0 in   (* client socket: DATA for a full request buffer, then the credit *)
+  let back := mkrc [FData 0 16384; FWindowUpdate 65535] [12] 0 in    (* backend socket: DATA for a full response buffer, then the credit *)
+  read_one front = None /\ read_one back = None /\ rc_send_window front = 0 /\ rc_send_window back = 0.
+Proof. vm_compute. repeat split; reflexivity. Qed.
